@@ -857,6 +857,41 @@ pub fn c02(em: &mut Emit, thorough: bool, seed: u64) {
     for c in honest_cases(&mut rng, thorough) {
         run_case(em, &c, &pred_c02);
     }
+    // the heads: Content-Range a-b/L with a <= b < L = len and exactly that range fetched
+    let max_len = if thorough { 9 } else { 6 };
+    for len in 1..=max_len {
+        for a in 0..=(len + 2) {
+            for b in 0..=(len + 2) {
+                for spec in [Spec::FromTo(a as u128, b as u128), Spec::From(a as u128), Spec::Suffix(a as u128)] {
+                    if matches!(spec, Spec::From(_) | Spec::Suffix(_)) && b != 0 {
+                        continue;
+                    }
+                    let mut q = HReq::get();
+                    q.range = Some(render_specs(&[plain(spec)]));
+                    let e = ent(len);
+                    let o = observe_serve(&q, &e);
+                    let grs: Vec<&Call> = o.calls.iter().filter(|c| matches!(c, Call::GetRange(..))).collect();
+                    let p = if o.panicked {
+                        "FAIL:panic".to_string()
+                    } else if o.status == 206 {
+                        match o.header("content-range").and_then(parse_content_range) {
+                            Some((x, y, l)) => pred(
+                                x <= y && y < l && l == len as u128
+                                    && grs == vec![&Call::GetRange(x as u64, y as u64 + 1)],
+                                || format!("Content-Range {}-{}/{} (len {}) fetched {:?}", x, y, l, len, grs),
+                            ),
+                            None => "FAIL:206 without a parseable Content-Range".to_string(),
+                        }
+                    } else if o.status == 200 {
+                        pred(grs == vec![&Call::GetRange(0, len)], || format!("200 fetched {:?}", grs))
+                    } else {
+                        pred(grs.is_empty(), || format!("{} fetched {:?}", o.status, grs))
+                    };
+                    em.case(&serve_line(&q, &e, o.now), &o.show(), &p, &format!("head:{}", status_class(&o)));
+                }
+            }
+        }
+    }
 }
 
 pub fn c06(em: &mut Emit, thorough: bool, seed: u64) {
